@@ -117,3 +117,23 @@ extern "C" void h_zone(void)
 	vp_note(neg);
 	vp_reach(1);
 }
+
+// fractional seconds: p0 = number of digits (1..9), all symbolic; the result is a valid instant within the same second
+extern "C" void h_frac(void)
+{
+	int k = vp_param(0), zone = vp_param(1);
+	char buf[48]; int n = 0;
+	const char* b = "2017-05-18T03:24:12.";
+	while (b[n]) { buf[n] = b[n]; n++; }
+	for (int i = 0; i < k; i++) { char c = (char)nondet_u8(); vp_assume(c >= '0' && c <= '9'); buf[n++] = c; }
+	const char* z = zone ? "+01:00" : "Z";
+	while (*z) buf[n++] = *z++;
+	buf[n] = 0;
+	Date d = Date(String(buf));
+	Date base = Date(String(zone ? "2017-05-18T03:24:12+01:00" : "2017-05-18T03:24:12Z"));
+	double t = d.time(), t0 = base.time();
+	vp_assert(t == t, "a date-time with 1..9 fractional digits is valid");
+	vp_assert(t >= t0 && t <= t0 + 1.0, "the fraction adds at most one second to the instant (a double near 1.5e9 resolves 2.4e-7 s, so .99999998 may round up to the next second)");
+	vp_note(1);
+	vp_reach(1);
+}
